@@ -277,7 +277,7 @@ def make_vars(q, objs, one_shot: bool = False, wrap_domain=None):
     return V
 
 
-def build_query(q, V, objs):
+def build_query(q, V, objs, quantification=None):
     """Build one real EQL query over existing variables V. Returns (query_object, selected exprs, single)."""
     from krrood.entity_query_language import symbolic as S
     from krrood.entity_query_language.entity import (entity, set_of, and_, or_, not_, contains, exists, for_all,
@@ -322,18 +322,19 @@ def build_query(q, V, objs):
     sel = [term(t) for t in q["sel"]]
     c = cond(q["cond"]) if q["cond"] is not None else None
     single = len(sel) == 1 and q["sel"][0][0] == "var" and not q.get("force_set_of")
+    kw = {"quantification": quantification} if quantification is not None else {}
     if single:
-        query = an(entity(sel[0], c)) if c is not None else an(entity(sel[0]))
+        query = an(entity(sel[0], c), **kw) if c is not None else an(entity(sel[0]), **kw)
     else:
-        query = an(set_of(sel, c)) if c is not None else an(set_of(sel))
+        query = an(set_of(sel, c), **kw) if c is not None else an(set_of(sel), **kw)
     return query, sel, single
 
 
-def build_real(q, one_shot: bool = False, wrap_domain=None, classes=None):
+def build_real(q, one_shot: bool = False, wrap_domain=None, classes=None, quantification=None):
     """Build the real EQL query. Returns (query_object, selected exprs, single, objects)."""
     objs = make_objects(q, classes)
     V = make_vars(q, objs, one_shot, wrap_domain)
-    query, sel, single = build_query(q, V, objs)
+    query, sel, single = build_query(q, V, objs, quantification)
     return query, sel, single, objs
 
 
